@@ -1,3 +1,167 @@
-"""Placeholder, replaced below."""
-def run_harnesses(*a, **k):
-    raise NotImplementedError
+"""Run Kani harnesses that live in /repo behind cfg(kani).
+
+The harness calls the real function: the verified code is the compiled code.
+A loop-free harness over kani::any() of the full input type is a complete
+proof; harnesses registered with a "bounded" note are bounded stand-ins and
+are reported as such, never counted as proved.
+"""
+import json
+import os
+import re
+import shutil
+import subprocess
+import sys
+import tempfile
+import time
+
+ROOT = os.path.dirname(os.path.dirname(os.path.abspath(__file__)))
+TARGET = os.environ.get('VERIF_KANI_TARGET', os.path.join(ROOT, '.cache', 'kani-target'))
+
+
+def _env():
+    e = dict(os.environ)
+    e['CARGO_NET_OFFLINE'] = 'true'
+    return e
+
+
+def _cargo_kani(repo, args, timeout):
+    cmd = ['cargo', 'kani', '--target-dir', TARGET, '-Z', 'function-contracts', '-Z', 'stubbing'] + args
+    t0 = time.time()
+    try:
+        p = subprocess.run(cmd, cwd=repo, env=_env(), stdout=subprocess.PIPE, stderr=subprocess.STDOUT,
+                           text=True, timeout=timeout)
+        return p.returncode, p.stdout, time.time() - t0, cmd
+    except subprocess.TimeoutExpired as ex:
+        out = ex.stdout if isinstance(ex.stdout, str) else (ex.stdout or b'').decode(errors='replace')
+        return -9, out + '\nTIMEOUT after %ss' % timeout, time.time() - t0, cmd
+
+
+def parse(out):
+    """Split cargo-kani output into per-harness results."""
+    res = {}
+    parts = re.split(r'^Checking harness ([^\s.]+(?:\.[^\s.]+)*?)\.\.\.\s*$', out, flags=re.M)
+    # parts: [pre, name1, body1, name2, body2, ...]
+    for i in range(1, len(parts), 2):
+        name = parts[i]
+        body = parts[i + 1]
+        checks = []
+        for m in re.finditer(r'^Check \d+: (\S+)\s*\n\s*- Status: (\S+)\s*\n\s*- Description: "(.*?)"\s*\n(?:\s*- Location: (.*?)\n)?',
+                             body, flags=re.M | re.S):
+            checks.append({'name': m.group(1), 'status': m.group(2), 'desc': m.group(3), 'loc': (m.group(4) or '').strip()})
+        verdict = None
+        m = re.search(r'^VERIFICATION:- (\w+)', body, flags=re.M)
+        if m:
+            verdict = m.group(1)
+        tm = re.search(r'^Verification Time: ([0-9.]+)s', body, flags=re.M)
+        res[name] = {'checks': checks, 'verdict': verdict, 'time_s': float(tm.group(1)) if tm else None, 'body': body}
+    return res
+
+
+def playback(repo, harness, timeout):
+    """Ask Kani for concrete values of a failing harness (printed unit test)."""
+    rc, out, dt, cmd = _cargo_kani(repo, ['-Z', 'concrete-playback', '--concrete-playback=print',
+                                          '--harness', harness, '--exact'], timeout)
+    m = re.search(r'Concrete playback unit test for `[^`]*`:\s*```\s*(.*?)```', out, flags=re.S)
+    return m.group(1).strip() if m else None
+
+
+def run_harnesses(specs, repo='/repo', tier='quick', seed=0, prop=None):
+    t0 = time.time()
+    res = {'unit': 'kani', 'backend': 'kani', 'status': 'undecided', 'reasons': [], 'failures': [],
+           'obligations': 0, 'discharged': 0, 'functions': [], 'rewrites': [], 'assumptions': [],
+           'samples': [], 'solver_s': 0.0, 'wall_s': 0.0, 'checker_cmd': '', 'harnesses': [], 'bounded': []}
+    specs = [s for s in specs if tier == 'thorough' or not s.get('thorough_only')]
+    names = [s['harness'] for s in specs]
+    byname = {s['harness']: s for s in specs}
+    timeout = max(int(s.get('timeout', 300)) for s in specs) * (3 if tier == 'thorough' else 1) + 600
+    args = []
+    for n in names:
+        args += ['--harness', n]
+    args += ['--exact', '-j', str(min(8, max(1, len(names)))), '--output-format=regular']
+    rc, out, dt, cmd = _cargo_kani(repo, args, timeout)
+    res['checker_cmd'] = 'cd /repo && CARGO_NET_OFFLINE=true ' + ' '.join(cmd)
+    if 'error: could not compile' in out or 'error[E' in out or 'Checking harness' not in out:
+        errs = [l for l in out.split('\n') if l.startswith('error')]
+        res['reasons'].append('cargo kani did not get to verification (build problem or unknown harness): %s ... %s'
+                              % ('; '.join(errs[:5]), out[-600:]))
+        res['wall_s'] = time.time() - t0
+        return res
+    per = parse(out)
+    for n in names:
+        short = n
+        key = next((k for k in per if k == n or k.endswith('::' + n)), None)
+        spec = byname[n]
+        if key is None:
+            res['reasons'].append('harness %s did not run (not found or kani aborted): %s' % (n, out[-600:]))
+            continue
+        h = per[key]
+        checks = h['checks']
+        oblig = [c for c in checks if not c['name'].split('.')[-2:][0].startswith('cover')]
+        covers = [c for c in checks if '.cover.' in c['name']]
+        oblig = [c for c in checks if '.cover.' not in c['name']]
+        failed = [c for c in oblig if c['status'] == 'FAILURE']
+        undet = [c for c in oblig if c['status'] not in ('SUCCESS', 'FAILURE')]
+        unwind_fail = [c for c in failed if 'unwinding assertion' in c['desc']]
+        failed = [c for c in failed if 'unwinding assertion' not in c['desc']]
+        bad_cover = [c for c in covers if c['status'] != 'SATISFIED']
+        res['obligations'] += len(oblig)
+        res['discharged'] += len([c for c in oblig if c['status'] == 'SUCCESS'])
+        res['solver_s'] += h['time_s'] or 0
+        hinfo = {'harness': key, 'checks': len(oblig), 'covers': len(covers), 'verdict': h['verdict'],
+                 'time_s': h['time_s'], 'bounded': spec.get('bounded'), 'target': spec.get('target')}
+        res['harnesses'].append(hinfo)
+        if spec.get('bounded'):
+            res['bounded'].append('%s: %s' % (n, spec['bounded']))
+        if spec.get('target'):
+            res['functions'].append({'fn': spec['target'], 'file': spec.get('file', ''), 'under_contract': True,
+                                     'harness': n})
+        res['samples'] += ['%s: %s' % (n, c['desc']) for c in oblig[:2]]
+        if h['verdict'] is None:
+            res['reasons'].append('harness %s: no verdict (timeout/crash): %s' % (n, h['body'][-400:]))
+            continue
+        if unwind_fail:
+            res['reasons'].append('harness %s: unwinding bound too small (%s)' % (n, unwind_fail[0]['loc']))
+        if bad_cover:
+            res['reasons'].append('vacuity guard: harness %s cover not satisfied: %s' % (n, bad_cover[0]['desc']))
+        if undet and not failed:
+            res['reasons'].append('harness %s: %d checks undetermined' % (n, len(undet)))
+        for c in failed:
+            f = {'id': 'kani/%s:%s' % (n, c['desc']), 'fn': spec.get('target', n), 'kind': 'kani-check',
+                 'message': c['desc'], 'clause': c['desc'], 'clause_origin': ['repo', c['loc']],
+                 'site': c['loc'], 'props': [prop] if prop else spec.get('props', []),
+                 'rendered': 'Kani harness %s\nCheck %s\n - Status: FAILURE\n - Description: "%s"\n - Location: %s\n'
+                             % (key, c['name'], c['desc'], c['loc']), 'canary': False}
+            res['failures'].append(f)
+        if failed:
+            cx = playback(repo, n, int(spec.get('timeout', 300)) + 300)
+            if cx:
+                for f in res['failures']:
+                    if f['id'].startswith('kani/%s:' % n):
+                        f['counterexample'] = cx
+                        f['replay_output'] = ('Kani concrete playback for harness %s (values for kani::any() in order; the harness '
+                                              'calls the real function, so running it with these values via `cargo kani playback` '
+                                              'reproduces the failure):\n%s' % (n, cx))
+    for a in ['kani 0.68: machine arithmetic exact; stubs/assumes inside the harnesses are listed in the harness source (cfg(kani) modules in /repo)']:
+        res['assumptions'].append(a)
+    res['status'] = 'undecided' if res['reasons'] else ('fail' if res['failures'] else 'ok')
+    res['wall_s'] = time.time() - t0
+    return res
+
+
+def warm(repo='/repo'):
+    """Build the dependency graph once so that later checks only rebuild the crate."""
+    rc, out, dt, cmd = _cargo_kani(repo, ['--only-codegen'], 3600)
+    print('kani warm-up: rc=%s in %.0fs' % (rc, dt))
+    if rc != 0:
+        print(out[-2000:])
+    return rc
+
+
+if __name__ == '__main__':
+    if '--warm' in sys.argv:
+        sys.exit(0 if warm(os.environ.get('VERIF_REPO', '/repo')) == 0 else 1)
+    specs = [{'harness': h} for h in sys.argv[1:]]
+    r = run_harnesses(specs)
+    for f in r['failures']:
+        print(f['rendered'])
+    print(json.dumps({k: v for k, v in r.items() if k not in ('failures',)}, indent=1))
